@@ -622,6 +622,15 @@ def field_requiredness(check: Check, repo: Repo, rule: str = "FIELD-REQUIREDNESS
         ]
         check.ob(rule, fn, f"{fname}: no nullability test of field.type", not other,
                  "none" if not other else f"`{unparse(other[0])}` decides on the field's nullability alone (line {other[0].lineno}); siblings use is_required_input_field, which also looks at the default")
+        # ... nor of one of the two spellings of its default alone (`default=` and the deprecated `default_value=`)
+        own_default = [
+            a for t in walk_body(fn) if isinstance(t, (ast.If, ast.IfExp, ast.While))
+            for a in ast.walk(t.test) if isinstance(a, ast.Attribute) and a.attr in ("default", "default_value")
+            and isinstance(a.value, ast.Name) and a.value.id in ("field", "field_def", "input_field")
+        ]
+        check.ob(rule, fn, f"{fname}: no test of field.default / field.default_value", not own_default,
+                 "none" if not own_default else f"`{unparse(own_default[0])}` is tested directly (line {own_default[0].lineno}): a default given in the other spelling "
+                 "(default= vs. default_value=) is missed; is_required_input_field looks at both")
 
 
 def variable_arm(check: Check, repo: Repo, rule: str = "VARIABLE-ARM") -> None:
@@ -1014,3 +1023,71 @@ def float_text(check: Check, repo: Repo, rule: str = "FLOAT-TEXT") -> None:
 def _desugar_ifs(stmts: list[ast.stmt]) -> list[ast.stmt]:
     """`if c: <assignments>` without else, followed by more statements, in the shape the block evaluator executes."""
     return stmts
+
+
+def enum_direction(check: Check, repo: Repo, rule: str = "ENUM-DIRECTION") -> None:
+    check.rule(
+        rule,
+        "GraphQLEnumType keeps two tables: `values` (name -> definition, the *external* side: names are what variables, "
+        "literals and results carry) and `_value_lookup` (internal value -> name, needed only to turn a resolver result "
+        "into a name). The reverse table is read by coerce_output_value alone; the input-side methods (coerce_input_value, "
+        "coerce_input_literal, value_to_literal, parse_*) look names up in `values`. An input-side method that consults "
+        "the reverse table treats an internal value as if it were external: with {ASC: 'DESC', DESC: 'ASC'} the literal "
+        "written for the external value 'ASC' coerces back to another value than the value itself",
+    )
+    ci = ClassIndex(repo).get("type.definition", "GraphQLEnumType")
+    readers = sorted(name for name, m in ci.methods().items() if name != "_value_lookup" and any(
+        isinstance(a, ast.Attribute) and a.attr == "_value_lookup" for a in walk_body(m)))
+    allowed = {"coerce_output_value"}
+    for name in readers:
+        check.ob(rule, ci.methods()[name], f"GraphQLEnumType.{name} reads _value_lookup", name in allowed,
+                 "the output side" if name in allowed else "an input-side method reads the internal-value table: internal values are mistaken for external ones")
+    if "coerce_output_value" not in readers:
+        raise AnalysisError("GraphQLEnumType.coerce_output_value no longer reads _value_lookup")
+    for name in ("coerce_input_value", "coerce_input_literal", "value_to_literal"):
+        m = ci.methods().get(name)
+        if m is None:
+            raise AnalysisError(f"GraphQLEnumType.{name} not found")
+        uses = any(isinstance(a, ast.Attribute) and a.attr == "values" and unparse(a.value) == "self" for a in walk_body(m))
+        check.ob(rule, m, f"GraphQLEnumType.{name} resolves names through self.values", uses, "reads self.values" if uses else "does not consult self.values")
+
+
+def str_verbatim(check: Check, repo: Repo, rule: str = "STR-VERBATIM") -> None:
+    from rules.language_rules import norm_facts
+
+    check.rule(
+        rule,
+        "String and ID, value side (result coercion and input value coercion): a value that already is a str is handed "
+        "back as it is. At every return that is reached under the must-fact isinstance(<arg>, str) the returned expression "
+        "is the argument itself, and no raise is reached under that fact. So what result coercion emits is accepted back "
+        "unchanged by input coercion - an ID '007' stays '007' (not '7'), a String with a lone surrogate that was emitted "
+        "is not refused on the way in",
+    )
+    sc = scalar_coercers(repo)
+    n = 0
+    for scalar in ("String", "ID"):
+        for role in ("coerce_output_value", "coerce_input_value"):
+            fn = sc[scalar].get(role)
+            if fn is None:
+                raise AnalysisError(f"{scalar}.{role} is not a module-level function")
+            p = fn.args.args[0].arg
+            flow = FactFlow(CFG(fn))
+            key = (f"isinstance({p}, str)", True)
+            seen = False
+            for x in walk_body(fn):
+                if not isinstance(x, (ast.Return, ast.Raise)):
+                    continue
+                if key not in norm_facts(flow.facts_at(x)):
+                    continue
+                seen = True
+                n += 1
+                if isinstance(x, ast.Raise):
+                    check.ob(rule, x, f"{scalar}.{role} = {fn.name}: raise under isinstance({p}, str)", False,
+                             f"a str is refused (`{unparse(x)[:60]}`): the sibling direction accepts / emits every str")
+                else:
+                    ok = isinstance(x.value, ast.Name) and x.value.id == p
+                    check.ob(rule, x, f"{scalar}.{role} = {fn.name}: return for a str argument", ok,
+                             "the argument itself" if ok else f"returns `{unparse(x.value)[:50]}`: the str is rewritten on the way")
+            if not seen:
+                check.ob(rule, fn, f"{scalar}.{role} = {fn.name}: has a str arm", False, f"no return under isinstance({p}, str)")
+    check.floor(rule, 4, "str arms of the String/ID value coercers")
